@@ -1507,25 +1507,28 @@ func (styleFor StyleFor) SetPageComputedStylesT(pageType utils.PageElement, html
 
 // Return tokens with resolved CSS variables.
 func resolveVar(computed map[string]pr.RawTokens, token Token) []Token {
+	return resolveVarRec(computed, token, nil)
+}
+
+// visiting holds the names of the variables being substituted: a variable
+// referring (transitively) to itself is invalid and treated as undefined.
+func resolveVarRec(computed map[string]pr.RawTokens, token Token, visiting []string) []Token {
 	if !validation.HasVar(token) {
 		return nil
 	}
 
 	fn := token.(pa.FunctionBlock)
 	if utils.AsciiLower(fn.Name) != "var" {
+		// resolve the variables in the arguments, at any depth
 		arguments := []Token{}
 		for _, argument := range fn.Arguments {
-			if fna, isFunction := argument.(pa.FunctionBlock); isFunction && utils.AsciiLower(fna.Name) == "var" {
-				arguments = append(arguments, resolveVar(computed, argument)...)
+			if resolved := resolveVarRec(computed, argument, visiting); resolved != nil {
+				arguments = append(arguments, resolved...)
 			} else {
 				arguments = append(arguments, argument)
 			}
 		}
-		token = pa.NewFunctionBlock(token.Pos(), fn.Name, arguments)
-		if resolved := resolveVar(computed, token); len(resolved) != 0 {
-			return resolved
-		}
-		return []Token{token}
+		return []Token{pa.NewFunctionBlock(token.Pos(), fn.Name, arguments)}
 	}
 
 	_, args := pa.ParseFunction(token)
@@ -1533,13 +1536,21 @@ func resolveVar(computed map[string]pr.RawTokens, token Token) []Token {
 	varNameToken, default_ := args[0], args[1:]
 	variableName := varNameToken.(pa.Ident).Value
 
+	cyclic := false
+	for _, name := range visiting {
+		if name == variableName {
+			cyclic = true
+		}
+	}
+
 	source := default_
-	if l := computed[variableName]; len(l) != 0 {
+	if l := computed[variableName]; len(l) != 0 && !cyclic {
 		source = l
 	}
+	visiting = append(visiting[:len(visiting):len(visiting)], variableName)
 	computedValue := []Token{}
 	for _, value := range source {
-		if resolved := resolveVar(computed, value); resolved != nil {
+		if resolved := resolveVarRec(computed, value, visiting); resolved != nil {
 			computedValue = append(computedValue, resolved...)
 		} else {
 			computedValue = append(computedValue, value)
